@@ -57,6 +57,18 @@ def families(tier):
                             id=f'c15/{ps}-{when}-{actor}-t{tmo}-o{"".join(order)}', cfg=cfg, params=dict(ps=ps, when=when, tmo=tmo),
                             scn=dict(buses={b: dict(hist=hist) for b in names}, order=order, handlers=hs, main=main, actors=actors, forwards=[], settle=2.0,
                                      no_watch=(ps == 'reject'))))
+    # a handler of A processes its awaited child on B inline (B's run loop never sees it) while B's history is tiny: is B 'idle'?
+    for hist, nest, who in itertools.product((1, 2, 50), (False, True), ('main', 'actor')):
+        hc = ([('disp', 'B', 'G', 'await')] if nest else []) + [('pause',), ('pause',)]
+        hs = [dict(bus='A', pat='P', name='hp', prog=[('disp', 'B', 'C', 'await')]), dict(bus='B', pat='C', name='hcB', prog=hc), dict(bus='B', pat='G', name='hgB', prog=[('ret', 1)]),
+              dict(bus='B', pat='X', name='hxB', prog=[('ret', 0)])]
+        if who == 'main':
+            main, actors = [('disp', 'A', 'P', 'ff'), ('pause',), ('idle', 'B'), ('idle', 'A')], []
+        else:
+            main, actors = [('disp', 'A', 'P', 'ff'), ('pause',), ('pause',), ('idle', 'A')], [[('pause',), ('idle', 'B'), ('disp', 'B', 'X', 'ff'), ('idle', 'B')]]
+        for order in (['A', 'B'], ['B', 'A']):
+            out.append(dict(prop='C15', family='c15.idle.inline_other_bus', id=f'c15/inline-h{hist}-n{int(nest)}-{who}-o{"".join(order)}', cfg=cfg, params=dict(ps='inline_xbus', when='paused', tmo=None),
+                            scn=dict(buses={'A': {}, 'B': dict(hist=hist)}, order=order, handlers=hs, main=main, actors=actors, forwards=[], settle=2.0)))
     return out
 
 
